@@ -2,6 +2,15 @@
 """Write /verif/seeded/<name>/meta.json for every seeded change from its confirmation.txt."""
 import json, os, re, glob
 NEEDS = {
+ "C05c_parameter_run_fast_path_checks_ends_only": "a builder function with >= 3 parameters whose first and last model indices bound exactly that many positions but whose interior indices are permuted or outside (model [tau,t0,omega,phi], function (tau,phi,omega)): evaluated on the wrong parameters",
+ "C06c_tiny_weights_masked_as_zero": "a non-zero weight of magnitude <= 2.2e-16 (standard deviations above 4.5e15 in the units used): the row is multiplied by 0 instead of w_i",
+ "C08c_par_all_finite_zero_chunk": "parallel flavour with N*M smaller than the number of workers of the ambient rayon pool (3 samples x 2 functions, 8 workers): par_chunks(0) panics inside build()/set_params",
+ "C12c_statistics_jacobian_flat_map_drops_errors": "eval_partial_deriv failing during the P calls of the statistics phase after a successful fit: Ok with a covariance matrix one column short (panic if all P fail)",
+ "C13c_sigma_from_nonzero_weight_count": "weights containing an exact 0: covariance scaled by |r|^2/(N_nonzero-M-P) instead of the reduced chi2",
+ "C14c_band_from_weighted_rows_divided_by_weight": "a weight of exactly 0 and fit_with_statistics: the band at that sample is 0/0 = NaN",
+ "C18c_epsilon_filtered_by_is_normal": "a supplied epsilon of +-0 or a subnormal value together with a singular value of W*Phi in (|eps|, machine eps] (tiny-scaled basis or weights): machine epsilon is used instead",
+ "C19c_uniform_weights_replaced_by_unit": "explicit weights that are all identical and != 1 (equal sigma, weights 1/sigma): stored as Unit, reduced chi2 / standard error / weighted residuals lose the factor w^2",
+ "C01d_svd_convergence_tolerance_from_epsilon": "a user epsilon well above machine epsilon (1e-8..1e-3): the SVD iteration stops early, coefficients off by ~0.1-1 x epsilon relative even for well-conditioned problems",
  "C02c_magnitude_normalisation_shadows_phi": "largest |W*Phi| entry finite and above sqrt(MAX) (1.3e154; f32 1.8e19) or below sqrt(MIN_POSITIVE): the matrix is normalised before the SVD, coefficients are un-scaled, but the residual is formed with the normalised matrix (shadowed binding)",
  "C03c_parallel_jacobian_block_index": "parallel flavour on a pool of t workers with 2 <= t < P and ceil(P/t) not dividing P (P=3, t=2): the trailing block of Jacobian columns holds the derivative of an earlier parameter",
  "C04c_residuals_from_full_projector_in_set_params": "a singular value of W*Phi(alpha_hat) at or below epsilon: residuals Y_w - U U^T Y_w project out truncated directions too, the coefficients do not",
